@@ -282,6 +282,7 @@ pcgstrf_MemInit(int_t n, int_t annz, superlumt_options_t *superlumt_options,
 
     if ( !cexpanders )
       cexpanders = (ExpHeader *) SUPERLU_MALLOC(NO_MEMTYPE * sizeof(ExpHeader));
+    if ( !cexpanders ) SUPERLU_ABORT("SUPERLU_MALLOC fails for expanders[].");
 
     if ( refact == NO ) {
 
